@@ -163,6 +163,8 @@ bool Json::Private::readToken()
             case '\0':
               return syntaxError(pos, "Unexpected end of file"), false;
             default:
+              if(*pos.pos == '\n' || (*pos.pos == '\r' && pos.pos[1] != '\n'))
+                ++pos.line;
               value.append('\\');
               value.append(*pos.pos);
               ++pos.pos;
